@@ -535,6 +535,7 @@ type job struct {
 // ---- TestCheck ---------------------------------------------------------------------------------------
 
 func TestCheck(t *testing.T) {
+	vk.UseT(t)
 	r := vk.Start("C16", "model_checking", 150*time.Second, 22*time.Minute)
 	defer vk.CleanScratch()
 	if r.Replay != "" {
